@@ -131,7 +131,7 @@ func runP2P(outPath string, scale int, inPath string) {
 		rec := pRec{K: "p", I: i, Phase: "pending", Resp: resp, D: hex.EncodeToString(d), Gen: gen}
 		emit(rec)
 		// a handler that got stuck after the previous case had been judged (it started late) is charged to that case
-		if sb := inHandlers(); sb > charged {
+		if sb := handlersSettled(charged); sb > charged {
 			emit(pRec{K: "p", I: lastI, Phase: "late", Resp: lastResp, D: lastD, Gen: lastGen, GLeak: sb - charged, SettleMs: -1, Alive: true})
 			charged = sb
 		} else if sb < charged {
@@ -208,7 +208,7 @@ func runP2P(outPath string, scale int, inPath string) {
 			}
 		}
 		time.Sleep(300 * time.Millisecond)
-		if sb := inHandlers(); sb > charged {
+		if sb := handlersSettled(charged); sb > charged {
 			emit(pRec{K: "p", I: lastI, Phase: "late", Resp: lastResp, D: lastD, Gen: lastGen, GLeak: sb - charged, SettleMs: -1, Alive: true})
 		}
 		emit(pRec{K: "p", I: -1, Phase: "end", Alive: pair.ping()})
@@ -235,7 +235,7 @@ func runP2P(outPath string, scale int, inPath string) {
 	}
 	time.Sleep(300 * time.Millisecond)
 	alive := pair.ping()
-	if sb := inHandlers(); sb > charged { // nothing may still sit in a handler at the end
+	if sb := handlersSettled(charged); sb > charged { // nothing may still sit in a handler at the end
 		emit(pRec{K: "p", I: lastI, Phase: "late", Resp: lastResp, D: lastD, Gen: lastGen, GLeak: sb - charged, SettleMs: -1, Alive: true})
 	}
 	pair.close()
@@ -287,6 +287,18 @@ func inHandlers() int {
 		stackBuf = make([]byte, 2*len(stackBuf))
 	}
 	return bytes.Count(buf, []byte("p2p.(*MessageProtocol).onRequest(")) + bytes.Count(buf, []byte("p2p.(*MessageProtocol).onResponse("))
+}
+
+// handlersSettled: number of goroutines inside the stream handlers once it is at most target or the settle deadline passed
+// (handlers of the liveness pings and of a just finished case may legitimately still be running for a moment).
+func handlersSettled(target int) int {
+	t0 := time.Now()
+	n := inHandlers()
+	for n > target && time.Since(t0) < settleDeadline {
+		time.Sleep(5 * time.Millisecond)
+		n = inHandlers()
+	}
+	return n
 }
 
 // quiesce waits until the goroutine count has been stable for a while (streams of the previous exchange closed) and
